@@ -7,6 +7,7 @@ import (
 	"encoding/json"
 	"fmt"
 	"io"
+	"math"
 	"runtime"
 	"testing"
 	"testing/synctest"
@@ -46,10 +47,13 @@ type c08Case struct {
 	API   string // reader | read | wsjson | netconn
 	Buf   int
 	Chunk int // transport max read (0 = none)
+	// WriterOpen: the reading goroutine has a message of its own open (Writer, one Write,
+	// no Close yet - an echo loop copying into a writer) while it reads
+	WriterOpen bool
 }
 
 func (c c08Case) String() string {
-	s := fmt.Sprintf("{mode=%s api=%s buf=%d chunk=%d msgs=[", c.Mode.Name, c.API, c.Buf, c.Chunk)
+	s := fmt.Sprintf("{mode=%s api=%s buf=%d chunk=%d writerOpen=%v msgs=[", c.Mode.Name, c.API, c.Buf, c.Chunk, c.WriterOpen)
 	for _, m := range c.Msgs {
 		s += fmt.Sprintf("{size=%d kind=%d comp=%v/%v frags=%d setlimit=%d late=%v}", m.Size, m.Kind, m.Compress, m.Variant, m.Frags, m.SetLimit, m.Late)
 	}
@@ -60,7 +64,7 @@ func (c c08Case) String() string {
 	return s + "}"
 }
 
-var c08Limits = []int64{c08Default, -1, 0, 1, 2, 125, 126, 4095, 4096, 32768, 65536, 1 << 20}
+var c08Limits = []int64{c08Default, -1, 0, 1, 2, 125, 126, 4095, 4096, 32768, 65536, 1 << 20, 1 << 20, math.MaxInt64, math.MaxInt64 - 1, 1 << 62}
 
 func effLimit(l int64) int64 {
 	if l == c08Default {
@@ -76,6 +80,7 @@ func genC08(rt *rapid.T) c08Case {
 	c.API = rapid.SampledFrom([]string{"reader", "reader", "read", "wsjson", "netconn"}).Draw(rt, "api")
 	c.Buf = rapid.SampledFrom([]int{1, 7, 512, 4096, 32768, 70000}).Draw(rt, "buf")
 	c.Chunk = rapid.SampledFrom([]int{0, 0, 1, 100, 4096}).Draw(rt, "chunk")
+	c.WriterOpen = c.API != "netconn" && rapid.IntRange(0, 3).Draw(rt, "writerOpen") == 0
 	n := rapid.IntRange(1, 3).Draw(rt, "nMsgs")
 	cur := c08Default
 	for i := 0; i < n; i++ {
@@ -89,7 +94,7 @@ func genC08(rt *rapid.T) c08Case {
 		}
 		L := effLimit(cur)
 		var sizes []int
-		if L < 0 || c.API == "netconn" {
+		if L < 0 || L > 1<<40 || c.API == "netconn" {
 			sizes = []int{0, 1, 32767, 32768, 32769, 100000, 1 << 20}
 		} else {
 			sizes = []int{int(L) - 1, int(L), int(L) + 1, int(L) + 2, 2 * int(L), 10 * int(L), 0, 1}
@@ -369,6 +374,11 @@ func runC08(t fataler, c c08Case) (string, c08Result) {
 			}
 			return g
 		}
+		if c.WriterOpen {
+			if w, err := conn.Writer(ctx, websocket.MessageBinary); err == nil {
+				w.Write([]byte("answer,"))
+			}
+		}
 		if c.API == "netconn" {
 			nc = websocket.NetConn(ctx, conn, websocket.MessageBinary)
 			g := got{bad: -1}
@@ -451,7 +461,7 @@ func runC08(t fataler, c c08Case) (string, c08Result) {
 			if g.err == nil {
 				return "harness: no error and no EOF", res
 			}
-			if int64(g.n) > ex.limit+1 {
+			if int64(g.n)-1 > ex.limit {
 				return fmt.Sprintf("message %d: %d bytes were handed to the caller, more than limit+1 = %d", i, g.n, ex.limit+1), res
 			}
 			if g.bad >= 0 {
@@ -482,7 +492,7 @@ func runC08(t fataler, c c08Case) (string, c08Result) {
 				return fmt.Sprintf("a frame declaring %d bytes of which %d arrived was reported as a complete message", c.Huge.Declared, c.Huge.Trickle), res
 			}
 			L := cur
-			if L >= 0 && int64(hugeGot.n) > L+1 {
+			if L >= 0 && int64(hugeGot.n)-1 > L {
 				return fmt.Sprintf("huge frame: %d bytes handed out, more than limit+1", hugeGot.n), res
 			}
 			if hugeGot.n > c.Huge.Trickle || hugeGot.bad >= 0 {
@@ -514,7 +524,7 @@ func runC08(t fataler, c c08Case) (string, c08Result) {
 
 func TestC08(t *testing.T) {
 	rec := evid.For("C08")
-	rec.Rule = "rapid-generated sequences of 1-3 messages from a foreign sender with the read limit drawn from {default(never set), -1, 0, 1, 2, 125, 126, 4095, 4096, 32768, 65536, 1 MiB} and optionally changed between messages; sizes {L-1, L, L+1, L+2, 2L, 10L, 0, 1} (unlimited: up to 1 MiB); zero/pattern/random/text contents; any fragmentation; uncompressed or compressed by any foreign deflater; optionally a final frame that only DECLARES 2^32..2^63-1 bytes and then trickles 0..40000 bytes; APIs Reader (fixed buffer), Conn.Read, wsjson.Read, NetConn (limit disabled); 9 role/compression settings; transport chunking. Memory: runtime TotalAlloc delta across the receive. Non-trivial: size within +-1 of the limit, or a compressed message over the limit, or a declared length >= 2^32. distinct = hash(setting, api, per-message (limit class, size relation, compression, fragments), huge)."
+	rec.Rule = "rapid-generated sequences of 1-3 messages from a foreign sender with the read limit drawn from {default(never set), -1, 0, 1, 2, 125, 126, 4095, 4096, 32768, 65536, 1 MiB, 2^62, 2^63-2, 2^63-1} and optionally changed between messages; in a quarter of the cases the reading goroutine has a message of its own open (Writer, one Write, not closed yet); sizes {L-1, L, L+1, L+2, 2L, 10L, 0, 1} (unlimited: up to 1 MiB); zero/pattern/random/text contents; any fragmentation; uncompressed or compressed by any foreign deflater; optionally a final frame that only DECLARES 2^32..2^63-1 bytes and then trickles 0..40000 bytes; APIs Reader (fixed buffer), Conn.Read, wsjson.Read, NetConn (limit disabled); 9 role/compression settings; transport chunking. Memory: runtime TotalAlloc delta across the receive. Non-trivial: size within +-1 of the limit, or a compressed message over the limit, or a declared length >= 2^32. distinct = hash(setting, api, per-message (limit class, size relation, compression, fragments), huge)."
 	rapid.Check(t, func(rt *rapid.T) {
 		c := genC08(rt)
 		var msg string
@@ -536,6 +546,9 @@ func TestC08(t *testing.T) {
 		}
 		if res.Huge {
 			classes = append(classes, "declared>=2^32")
+		}
+		if c.WriterOpen {
+			classes = append(classes, "reader-has-a-message-of-its-own-open")
 		}
 		rec.Case(res.NearLimit || res.CompOver || res.Huge, shape, classes...)
 		if rec.WantSample() {
